@@ -8,8 +8,14 @@ package types
 //verif:bound IsMajority: validator-set size n arbitrary in 1..10, every one of the first n signature slots empty or 1..3 arbitrary bytes (all 2^10 occupancy patterns), slots of orders >= n empty
 //verif:assume IsMajority: slots with order >= n are empty (they are only ever written through verifications of effective validators, whose order is < n; that is what VerifC17SupLink in protocol/casper decides)
 //verif:obligation fn=VerifC17Majority args=1;2;3;4;5;6;7;8;9;10 validate=20
+//verif:obligation fn=VerifC17AddSupLink args=1;2 validate=20
 
-import "github.com/bytom/bytom/consensus"
+import (
+	"bytes"
+
+	"github.com/bytom/bytom/consensus"
+	"github.com/bytom/bytom/protocol/bc"
+)
 
 func VerifC17Majority(n int) {
 	s := &SupLink{SourceHeight: verifU64("srcHeight")}
@@ -32,4 +38,50 @@ func VerifC17Majority(n int) {
 	} else {
 		verifReach("VerifC17Majority:no-majority")
 	}
+}
+
+// Votes are counted per SOURCE CHECKPOINT (hash): adding a signature for the
+// link from source B never lands in, nor changes, the sup link of a different
+// source A - also when A and B have the same height (two checkpoints of a fork).
+func VerifC17AddSupLink(nExisting int) {
+	var links SupLinks
+	hashes := make([]bc.Hash, nExisting)
+	heights := make([]uint64, nExisting)
+	for i := 0; i < nExisting; i++ {
+		hashes[i] = bc.Hash{V0: verifU64("src.v0"), V1: uint64(i + 1)}
+		heights[i] = verifU64("src.height")
+		links.AddSupLink(heights[i], hashes[i], []byte{byte(0x10 + i)}, 0)
+	}
+	verifAssert(len(links) == nExisting, "one-sup-link-per-distinct-source")
+	newHash := bc.Hash{V0: verifU64("new.v0"), V1: verifU64("new.v1")}
+	newHeight := verifU64("new.height")
+	order := verifChoice("order", consensus.MaxNumOfValidators)
+	known := -1
+	for i := range hashes {
+		if hashes[i] == newHash {
+			known = i
+		}
+	}
+	links.AddSupLink(newHeight, newHash, []byte{0xee}, order)
+	verifObserveI64("links", int64(len(links)))
+	if known < 0 {
+		verifAssert(len(links) == nExisting+1, "vote-for-a-new-source-opens-a-new-sup-link")
+		last := links[len(links)-1]
+		verifAssert(last.SourceHash == newHash && last.SourceHeight == newHeight && bytes.Equal(last.Signatures[order], []byte{0xee}), "new-sup-link-records-source-and-signature")
+		verifReach("VerifC17AddSupLink:new-source")
+	} else {
+		verifAssert(len(links) == nExisting, "vote-for-a-known-source-extends-its-sup-link")
+		verifAssert(bytes.Equal(links[known].Signatures[order], []byte{0xee}), "signature-lands-in-the-source-sup-link")
+	}
+	for i := 0; i < nExisting; i++ {
+		if i == known {
+			continue
+		}
+		verifAssert(links[i].SourceHash == hashes[i] && links[i].SourceHeight == heights[i], "other-sup-links-keep-their-source")
+		for j := 1; j < consensus.MaxNumOfValidators; j++ {
+			verifAssert(len(links[i].Signatures[j]) == 0, "other-sup-links-gain-no-signature")
+		}
+		verifAssert(bytes.Equal(links[i].Signatures[0], []byte{byte(0x10 + i)}), "other-sup-links-keep-their-signatures")
+	}
+	verifReach("VerifC17AddSupLink:end")
 }
